@@ -894,10 +894,24 @@ func ModifyRegister(register *object.Register, in ast.Node) (ast.Node, bool) {
 			return nil, false
 		}
 	case *ast.FunctionLiteral:
-		// skip lambda/functions in functions.
-		return nil, false
+		// lambda/functions in the body: can't be combined with a register they capture (children are rewritten
+		// first, so by now the literal mentions the register if it used the name). One that doesn't is left alone.
+		if mentionsRegister(in, register) {
+			return nil, false
+		}
 	}
 	return in, true
+}
+
+func mentionsRegister(node ast.Node, register *object.Register) bool {
+	found := false
+	ast.Modify(node.(*ast.FunctionLiteral).Body, func(n ast.Node) (ast.Node, bool) { //nolint:errcheck // only visiting.
+		if r, ok := n.(*object.Register); ok && r == register {
+			found = true
+		}
+		return n, true
+	})
+	return found
 }
 
 func setupRegister(env *object.Environment, name string, value int64, body ast.Node) (object.Register, ast.Node, bool) {
